@@ -91,6 +91,12 @@ class Ctx(object):
         self.assumptions = []
         self.not_decided = []
         self.extra = {}
+        self.explained = {}
+
+    def explain(self, fi, node, why):
+        """a property rule has decided, by reasoning about what it does, a statement or test that is written differently
+        from the confirmed source: the token-edit rule (Z3) need not ask about the same line again"""
+        self.explained[(fi.qualname, getattr(node, 'lineno', 0))] = why
 
     def rule(self, rid, title, engine='', floor=0):
         return Rule(self, rid, title, engine, floor)
